@@ -191,7 +191,11 @@ where
             // tag is in the future; if it's "multiple", keep sending all tags in
             // between where we are now and payload.delivery_tag
             if payload.multiple {
-                let ret = (self.to_confirm)(self.parent.expected);
+                // a tag that was already confirmed individually keeps that outcome
+                let ret = match self.parent.out_of_order.remove(&self.parent.expected) {
+                    Some(earlier) => earlier,
+                    None => (self.to_confirm)(self.parent.expected),
+                };
                 self.parent.expected += 1;
                 return Some(ret);
             } else {
